@@ -4,7 +4,7 @@ from tools import vlib, t3
 from tools import ks
 
 MODULE = "PropC02"
-THEOREMS = ["C02_code_conforms", "C02_skip", "C02_untouched", "C02_rerun_executes_nothing", "C02_skipped_outputs_are_inputs"]
+THEOREMS = ["C02_code_conforms", "C02_skip", "C02_untouched", "C02_rerun_executes_nothing", "C02_skipped_outputs_are_inputs", "C02_cone_conforms"]
 
 
 def stamps(fs, paths):
